@@ -17,6 +17,8 @@ def gen_fil(rng):
         nchans = rng.choice([64, 100, 512]); fchans = nchans; f_shift = None                   # single piece
     else:
         nchans = rng.randint(8, 1500); fchans = rng.randint(3, nchans); f_shift = rng.choice([None, rng.randint(1, fchans)])
+    if rng.random() < 0.05:
+        nchans = rng.randint(8, 64); fchans = nchans + rng.randint(1, 40); f_shift = rng.choice([None, rng.randint(1, 8)])      # pieces wider than the file: none fit
     T = rng.randint(3, 6)
     return dict(nchans=nchans, fchans=fchans, f_shift=f_shift, tchans_file=T, tchans=rng.choice([None, None, rng.randint(1, T)]),
                 df=rng.choice([2.7939677238464355, 2.835503418452676, 1.0, 2.0, 91.552734375, rng.uniform(0.5, 500)]), dt=rng.choice([18.253611008, 1.0]),
@@ -54,7 +56,7 @@ def run(ctx):
         ctx.model_error(str(ex)[-1500:]); fvals = [None] * len(fcases)
     for c, r, mv in zip(fcases, fimpl, fvals):
         s = c["f_shift"] or c["fchans"]
-        want_n = (c["nchans"] - c["fchans"]) // s + 1
+        want_n = (c["nchans"] - c["fchans"]) // s + 1 if c["fchans"] <= c["nchans"] else 0
         ctx.count(dict(k="fil", c=c), nontrivial=want_n > 1)
         ctx.tally("fil_orientation", "asc" if c["ascending"] else "desc"); ctx.tally("fil_exact_multiple", (c["nchans"] - c["fchans"]) % s == 0)
         ctx.tally("fil_pieces", min(want_n, 20))
